@@ -18,6 +18,21 @@ theorem textWidth_W1 {W : Widths} (h : W1 W) (t : Text) : textWidth W t = t.leng
 theorem cellW_W1 {W : Widths} (h : W1 W) (c : Char) : cellW W c = 1 := by
   simp [cellW, (h c).2, textWidth, (h c).1]
 
+theorem measure_W1 {W : Widths} (h : W1 W) (c : Char) : measure W c = 1 := by
+  unfold measure; split
+  · exact cellW_W1 h c
+  · exact (h c).1
+
+theorem measWidth_W1 {W : Widths} (h : W1 W) (t : Text) : measWidth W t = t.length := by
+  induction t with
+  | nil => rfl
+  | cons c cs ih => simp [measWidth, ih, measure_W1 h]; omega
+
+theorem all_one_W1 {W : Widths} (h : W1 W) (t : Text) : (t.map (measure W)).any (· != 1) = false := by
+  induction t with
+  | nil => rfl
+  | cons c cs ih => simp [measure_W1 h, ih]
+
 /-- `(y, x)` is at or after `(y0, x0)` in reading order -/
 def Later (y0 x0 : Int) (y x : Int) : Prop := y0 < y ∨ (y0 = y ∧ x0 ≤ x)
 
